@@ -79,7 +79,7 @@ func contents(thorough bool) []Content {
 		c := Content{Name: fmt.Sprintf("specEdits(F1,F2,F0)=%03b", mask)}
 		c.Files = []fileDef{
 			{"d1", "f1.json", K1, []string{"a", "b"}, mask&4 != 0},
-			{"d1", "f2.yaml", K2, []string{"c"}, mask&2 != 0},
+			{"d1", "f2.yaml", K2, []string{"a", "c"}, mask&2 != 0}, // k2=a shares its unqualified name with k1=a
 			{"d0", "f0.json", K1, []string{"a", "d"}, mask&1 != 0},
 		}
 		out = append(out, c)
